@@ -181,6 +181,9 @@ fn score_pass(b: &Built, plan: &scoring::Plan, hits: &[HitInfo]) -> ScoreOutcome
 
 fn main() {
   let args: Vec<String> = std::env::args().skip(1).collect();
+  if args.first().map(|s| s.as_str()) == Some("probe") {
+    std::process::exit(scoring::probe_main(&args[1]));
+  }
   let mut ctx = Ctx::from_args("C10", "exploration", &args);
   ctx.rule = "per case one random corpus (15-250 docs, 1-4 commits, k1/b randomised, text through default or stop-word+stemmer analyzers, multi-valued/missing keyword and numeric fast fields; ~35% of the corpora also contain upserts/deletes) and 30-50 random requests (scored query trees: term, query_string, multi_match best/most_fields, prefix, dis_max+tie_breaker, bool, boosts, constant_score, function_score, rank_feature, script_score; sort plans of 0-3 keys over keyword/i64/f64/_score, both orders; all three execution modes). Each request is run with limit >= corpus size; evaluations = (1) order check of the full hit list against sort keys computed from the original documents, (2) on corpora without deleted documents and when _score is a sort key: every hit's score against the independent BM25/score-tree model (rel 1e-4), (3) a second run with a random limit 1..50 must be an admissible prefix of the full list. A request is non-trivial when it returned >= 2 hits that were order-checked (and counted once by hash of corpus+request).".into();
   ctx.assumptions = vec![
@@ -191,7 +194,7 @@ fn main() {
     "for `_score` sort keys the engine's reported score is used as the key (scores are verified separately), so near-ties cannot cause false order alarms".into(),
     "which documents match is C07/C08's concern: only returned hits are judged".into(),
   ];
-  let n = ctx.n(100, 2500);
+  let n = ctx.n(300, 5000);
   let quick = ctx.quick();
   ctx.run_cases("idx", n, |rng: &mut Rng, l: &mut Local, scratch| {
     let mut vocab: Vec<String> = gen::WORDS.iter().map(|s| s.to_string()).collect();
@@ -232,7 +235,7 @@ fn main() {
     let nreq = if quick { 30 } else { 50 };
     for _ in 0..nreq {
       let mut qc = qcfg.clone();
-      qc.custom = rng.chance(0.6);
+      qc.custom = rng.chance(0.7);
       qc.depth = rng.urange(0, 3);
       let query = scoring::gen_query(rng, &qc);
       let (sort_specs, sort_plan) = gen_sort(rng);
@@ -405,8 +408,9 @@ fn main() {
             l.count("limit_prefix_checks", 1);
             let got: Vec<(String, f32)> = r2.hits.iter().map(|h| (h.doc_id.clone(), h.score)).collect();
             let full: Vec<(String, f32)> = hits.iter().map(|h| (h.id.clone(), h.score)).collect();
+            let strict = scoring::plan(&built, &query, req.get("fields"), Quirks::default()).map(|p| scoring::bit_reproducible(&p)).unwrap_or(false);
             let bad = if score_only_desc {
-              scoring::check_topk(&full, &got, k, 2e-5, &built.loc).err().map(|d| (d.kind, d.detail))
+              scoring::check_topk(&full, &got, k, 2e-5, &built.loc, strict).err().map(|d| (d.kind, d.detail))
             } else {
               let a: Vec<&String> = got.iter().map(|g| &g.0).collect();
               let e: Vec<&String> = full.iter().take(k).map(|g| &g.0).collect();
